@@ -38,8 +38,15 @@ MC_B4 == << V("x", "exo", << >>, 0, ""),
             V("Lx", "lag", << >>, 0, "x"),
             V("v", "sim", << "x", "Lx" >>, 1, "") >>
 
+(* B5: user time axis and its lag under the reserved name t_minus_1 *)
+MC_B5 == << V("x", "exo", << >>, 0, ""),
+            V("t", "sim", << "k" >>, 5, ""),
+            V("t_minus_1", "lag", << >>, 0, "t"),
+            V("v", "sim", << "x", "t_minus_1" >>, 0, "") >>
+
 BP(b) == CASE b = "B1" -> MC_B1 [] b = "B2" -> MC_B2 [] b = "B3" -> MC_B3 [] b = "B4" -> MC_B4
-BPs == {"B1", "B2", "B3", "B4"}
+           [] b = "B5" -> MC_B5
+BPs == {"B1", "B2", "B3", "B4", "B5"}
 
 PathVals == << 3, 1, 4, 1, 5, 9, 2, 6, 5, 3 >>
 Path(n) == SubSeq(PathVals, 1, n)
@@ -63,11 +70,23 @@ ExoThorough == { X(f, e) : f \in {"list", "tuple", "strexpr"}, e \in {-1, 0, 1, 
 NonExo(vs) == SelectSeq(vs, LAMBDA v : v.cls # "exo")
 ICOne(vs, i) == << [name |-> NonExo(vs)[i].name, val |-> 10 + i] >>
 ICAll(vs) == [i \in 1..Len(NonExo(vs)) |-> [name |-> NonExo(vs)[i].name, val |-> 10 + i]]
+(* initial conditions aimed at the time axis when the block has no equation for it: on the *)
+(* automatic t (alone, as int, together with all others) and on the name t_minus_1, for     *)
+(* which no variable exists then                                                             *)
+TimeNames == {"t", "t_minus_1"}
+HasTimeIC(c) == \E i \in 1..Len(c.ics) : c.ics[i].name \in TimeNames \ Names(c.vars)
+ICTime(vs) ==
+    { [ics |-> << [name |-> n, val |-> 20] >>, icform |-> "float"] : n \in TimeNames \ Names(vs) }
+    \cup { [ics |-> << [name |-> "t", val |-> 20] >>, icform |-> "int"] : n \in {"t"} \ Names(vs) }
+    \cup { [ics |-> ICAll(vs) \o << [name |-> "t", val |-> 20], [name |-> "t_minus_1", val |-> 21] >>,
+            icform |-> "float"] : n \in {"t"} \ Names(vs) }
+
 ICChoices(vs) ==
     { [ics |-> << >>, icform |-> "float"] }
     \cup { [ics |-> ICOne(vs, i), icform |-> "float"] : i \in 1..Len(NonExo(vs)) }
     \cup { [ics |-> ICOne(vs, 1), icform |-> f] : f \in {"int", "undef"} }
     \cup { [ics |-> ICAll(vs), icform |-> f] : f \in {"float", "int", "undef"} }
+    \cup ICTime(vs)
 
 Mk(b, hw, x, ic, r) ==
     [bp |-> b, vars |-> BP(b), exo |-> ExoSpec(x.form, x.extra, hw.h), ics |-> ic.ics,
@@ -98,6 +117,10 @@ KeepQuick(c) == /\ ExoRejected(c) => (c.ics = << >> \/ (Len(c.ics) > 1 /\ c.icfo
                 /\ ~c.reduce => c.icform # "int"
                 /\ IsLate(c) => (c.reduce /\ c.icform = "float" /\ (c.ics = << >> \/ Len(c.ics) > 1)
                                  /\ c.late # c.horizon + 1)
+                /\ HasTimeIC(c) => (c.where \in {"block", "solver"} /\ ~ExoRejected(c)
+                                    /\ (c.exo.form = "scalar" \/ (c.exo.form = "list" /\ Len(c.exo.vals) = c.horizon + 1)))
+                /\ c.bp = "B5" => (c.where \in {"block", "solver"} /\ c.icform = "float"
+                                   /\ c.exo.form \in {"list", "scalar", "strexpr"})
                 /\ c.where = "both" => (c.reduce /\ c.icform = "float" /\ (c.ics = << >> \/ Len(c.ics) > 1))
 
 ----------------------------------------------------------------------------
@@ -147,7 +170,8 @@ InitThorough ==
     \/ \E b \in BPs, hw \in HW(0..5), x \in ExoThorough, r \in BOOLEAN :
           \E ic \in ICChoices(BP(b)) :
               LET c == Mk(b, hw, x, ic, r)
-                  keep == (IsLate(c) => (c.reduce /\ c.late # c.horizon + 1)) /\ (c.where = "both" => c.reduce)
+                  keep == /\ (IsLate(c) => (c.reduce /\ c.late # c.horizon + 1)) /\ (c.where = "both" => c.reduce)
+                          /\ ((HasTimeIC(c) \/ c.bp = "B5") => c.where \in {"block", "solver", "default"})
               IN keep /\ StartWith(c)
     \/ PairInit(BPs, 0..5, {0, 3})
 
